@@ -260,6 +260,12 @@ func main() {
 		die("kv_pebble.go: batch commit site found %d times, expected 1", n)
 	}
 	src = re2.ReplaceAllString(src, "\terr := b.b.Commit(pebble.NoSync)\n\tsimAfterCommit(b.p)\n")
+	// tuning-knob seam: the engine's memtable size (32 MiB in production) is a per-run knob
+	re3 := regexp.MustCompile(`MemTableSize: 32 \* 1024 \* 1024,`)
+	if n := len(re3.FindAllStringIndex(src, -1)); n != 1 {
+		die("kv_pebble.go: MemTableSize site found %d times, expected 1", n)
+	}
+	src = re3.ReplaceAllString(src, "MemTableSize: simMemTableSize(),")
 	emit(kvp, src)
 	addShimPackage("kvx", "server/kv")
 	addShimPackage("walx", "server/wal")
@@ -274,6 +280,7 @@ func main() {
 	}
 	emit(cp, re.ReplaceAllString(src, "func newClientPoolReal("))
 	addShimPackage("rpcx", "common/rpc")
+	addShimPackage("oxiax", "oxia")
 
 	js, _ := json.MarshalIndent(ov, "", " ")
 	if err := os.WriteFile(filepath.Join(*out, "overlay.json"), js, 0o644); err != nil {
